@@ -36,6 +36,7 @@ import ast
 from ..model import walk_no_nested, norm, call_name, FuncInfo
 from ..facts import FuncFacts, facts_at, stmt_paths, count_paths
 from ..report import Ctx, AnalysisError
+from ..construles import constant_membership_tests
 from ..flow import bound_arg, resolve_local, local_defs
 from ..defassign import possibly_undefined
 from .. import apirules
@@ -71,6 +72,9 @@ def check(ctx: Ctx):
     ctx.rule("R-CAPACITY", "free placements only on agents with enough remaining capacity (all hosted and pinned footprints deducted); pinned placements followed by a feasibility test")
     ctx.rule("R-COMPLETE", "free and pinned computations partition the nodes; the result contains both")
     ctx.rule("R-HINTS", "the result of distribute depends on its hints argument")
+    ctx.rule("R-DEADTEST", "a membership test is not made constant by a store of the same key a few statements before it")
+    ctx.rule("R-KINDS", "names returned by the hints are computations: they are never used as keys of the per-agent tables")
+    ctx.rule("R-ONCE", "a computation is added to an agent's set only when it is not hosted yet, or on the agent that already hosts it")
     methods = _methods(repo)
     if len(methods) < 12:
         raise AnalysisError(f"only {len(methods)} distribution methods found (floor 12)")
@@ -90,6 +94,15 @@ def check(ctx: Ctx):
             ctx.ok("R-UNDEF", f"{name}.{f.qualname}", f, f.node, sample=False)
         _retry(ctx, repo, m)
         _hints(ctx, repo, name, m)
+        for f in repo.all_functions(m):
+            hits = constant_membership_tests(f.node)
+            for st, tst, k, cont, dead in hits:
+                ctx.bad("R-DEADTEST", f"{name}.{f.qualname}: `{k} {'not in' if dead else 'in'} {cont}` after `{norm(st)[:50]}`", f, tst,
+                        f"`{cont}[{k}]` was stored unconditionally just before: the test is always {'False (its branch never runs)' if dead else 'True'}; "
+                        "either the store or the test is misplaced (e.g. a footprint that is never deducted)")
+            if not hits:
+                ctx.ok("R-DEADTEST", f"{name}.{f.qualname}", f, f.node, sample=False)
+        _kinds(ctx, repo, name, m)
     _capacity_gh(ctx, repo, "gh_cgdp", pinned=True)
     _capacity_gh(ctx, repo, "heur_comhost", pinned=False)
     _capacity_adhoc(ctx, repo)
@@ -395,6 +408,34 @@ def _capacity_gh(ctx, repo, name, pinned):
     raises = [r for r in ast.walk(d.node) if isinstance(r, ast.Raise) and "ImpossibleDistributionException" in norm(r)]
     okb = any(("candidates", False) in {(norm(t), p) for t, p in facts_at(ffd, r)} or ("not candidates", True) in {(norm(t), p) for t, p in facts_at(ffd, r)} for r in raises)
     ctx.check(okb, "R-CAPACITY", f"{name}.distribute: no candidate for the first computation => ImpossibleDistributionException", d, (raises or [d.node])[0], "")
+    # backtracking: what is un-placed is the computation at the index reached AFTER stepping back (the one that is in the mapping)
+    dec = [s for s in ast.walk(d.node) if isinstance(s, ast.AugAssign) and isinstance(s.op, ast.Sub) and norm(s.target) == "i"]
+    okk = len(dec) == 1
+    if okk:
+        blk = _block_of(d.node, dec[0])
+        k = blk.index(dec[0])
+        uses = []   # (statement index, expression) of every evaluation of computations[i] feeding a lookup / removal in current_mapping
+        for j, st in enumerate(blk):
+            for x in ast.walk(st):
+                key = None
+                if isinstance(x, ast.Call) and norm(x.func) in ("current_mapping.pop", "current_mapping.__delitem__") and x.args:
+                    key = x.args[0]
+                elif isinstance(x, ast.Subscript) and norm(x.value) == "current_mapping" and isinstance(x.ctx, (ast.Load, ast.Del)):
+                    key = x.slice
+                if key is None:
+                    continue
+                if "computations[i]" in norm(key):
+                    uses.append((j, x))
+                for nm in {n.id for n in ast.walk(key) if isinstance(n, ast.Name)}:
+                    for jj, st2 in enumerate(blk):
+                        if isinstance(st2, ast.Assign) and norm(st2.targets[0]) == nm and "computations[i]" in norm(st2.value):
+                            uses.append((jj, st2))
+        pops = [x for st in blk for x in ast.walk(st) if isinstance(x, ast.Call) and norm(x.func) == "current_mapping.pop"]
+        okk = bool(uses) and len(pops) == 1 and all(j > k for j, _ in uses) and (k == 0 or not any(isinstance(x, ast.Name) and x.id == "i" and isinstance(x.ctx, ast.Store) for st in blk[k + 1:] for x in ast.walk(st)))
+        bad_use = next((x for j, x in uses if j <= k), None)
+    ctx.check(okk, "R-CAPACITY", f"{name}.distribute: backtracking un-places the computation at the previous index (read after `i -= 1`)", d, (bad_use if okk is False and dec and bad_use is not None else (dec or [d.node])[0]),
+              "computations[i] read before the decrement is the computation that could NOT be placed: it is not in current_mapping and the lookup raises KeyError "
+              "instead of backtracking / ImpossibleDistributionException")
     # completeness
     comp_defs = [s for s in d.node.body if isinstance(s, ast.Assign) and norm(s.targets[0]) == "computations" and isinstance(s.value, ast.ListComp)]
     ok = bool(comp_defs)
@@ -461,6 +502,31 @@ def _derived_from(e, name) -> bool:
     return False
 
 
+def _kinds(ctx, repo, name, m):
+    """names bound by iterating hints.host_with(..) / hints.must_host(..) (or one element of them) are computation names"""
+    for f in repo.all_functions(m):
+        comp = {}
+        for x in ast.walk(f.node):
+            it, tgt = None, None
+            if isinstance(x, (ast.For, ast.comprehension)):
+                it, tgt = x.iter, x.target
+            if it is not None and isinstance(it, ast.Call) and isinstance(it.func, ast.Attribute) and it.func.attr in ("host_with", "must_host") and isinstance(tgt, ast.Name):
+                comp[tgt.id] = (x, it.func.attr)
+        if not comp:
+            continue
+        # per-agent tables: subscripted by the loop variable of `for a in <agents table>` somewhere in the function
+        for x in ast.walk(f.node):
+            if isinstance(x, ast.Subscript) and isinstance(x.slice, ast.Name) and x.slice.id in comp and isinstance(x.value, ast.Name) and x.value.id in ("agents_capa", "mapping", "agents_capacity"):
+                owner, api = comp[x.slice.id]
+                # the binding must be the one in scope: a comprehension variable is only visible inside its comprehension
+                scope = owner if isinstance(owner, ast.For) else next((c for c in ast.walk(f.node) if isinstance(c, (ast.ListComp, ast.SetComp, ast.GeneratorExp, ast.DictComp)) and owner in c.generators), None)
+                if scope is None or not any(n is x for n in ast.walk(scope)):
+                    continue
+                ctx.bad("R-KINDS", f"{name}.{f.qualname}: `{norm(x)}` with `{x.slice.id}` from hints.{api}(..)", f, x,
+                        f"hints.{api}() returns computation names; `{norm(x.value)}` is keyed by agent names: KeyError as soon as a hint reaches this line")
+        ctx.ok("R-KINDS", f"{name}.{f.qualname}: {len(comp)} hint-bound names", f, f.node, sample=False)
+
+
 # --------------------------------------------------------------------------- capacity: adhoc
 def _capacity_adhoc(ctx, repo):
     mod = PKG + ".adhoc"
@@ -494,6 +560,28 @@ def _capacity_adhoc(ctx, repo):
                   "a computation is put on an agent either chosen among agents with enough remaining capacity, or (hinted placement) with the "
                   "remaining capacity decreased and tested (< 0 => ImpossibleDistributionException) right after")
     ctx.check(n_checked >= 1 and n_pinned >= 2, "R-CAPACITY", "adhoc: greedy placement filtered by capacity, hinted placements tested afterwards", f, f.node, f"filtered={n_checked} tested-after={n_pinned}")
+    # exactly once: every name added to mapping[A] is known not to be hosted yet at that point, or A is the agent recorded as its host
+    for c in sites:
+        agent = c.func.value.slice
+        fs = {(norm(t), p) for t, p in facts_at(ff, c)}
+        added = []
+        for a in c.args:
+            added += list(a.elts) if isinstance(a, (ast.Set, ast.List, ast.Tuple)) else [a]
+        adef = resolve_local(f, agent) if isinstance(agent, ast.Name) else agent
+        for e in added:
+            t = norm(e)
+            free = (f"{t} in var_hosted", False) in fs or (f"{t} not in var_hosted", True) in fs
+            defs = [d for d in ast.walk(f.node) if isinstance(d, ast.Assign) and isinstance(agent, ast.Name) and norm(d.targets[0]) == agent.id
+                    and any(any(n is c for n in ast.walk(l)) and any(n is d for n in ast.walk(l)) for l in f.node.body if isinstance(l, ast.For))]
+            def _fs(d):
+                return {(norm(a_), b_) for a_, b_ in facts_at(ff, d)}
+            joins = bool(defs) and all((norm(d.value) == f"var_hosted[{t}]" and (f"{t} in var_hosted", True) in _fs(d)) or (f"{t} in var_hosted", False) in _fs(d) for d in defs) \
+                and any(norm(d.value) == f"var_hosted[{t}]" for d in defs)
+            pinned = isinstance(e, ast.Name) and any(isinstance(l, ast.For) and isinstance(l.iter, ast.Call) and norm(l.iter.func) == "hints.must_host" and norm(l.target) == e.id and any(n is c for n in ast.walk(l))
+                                                     for l in ast.walk(f.node))
+            ctx.check(free or joins or pinned, "R-ONCE", f"adhoc: `{t}` added to mapping[{norm(agent)}]", f, ff.stmt(c),
+                      f"`{t}` may already be hosted on another agent (e.g. through a must_host hint): adding it here hosts it twice and Distribution() raises ValueError; "
+                      "it must be known unhosted on this path, or the agent must be the one recorded in var_hosted")
     # every node placed: the main loop ranges over all nodes, skips only hosted ones, and every non-raising path records the node
     loops = [l for l in f.node.body if isinstance(l, ast.For) and norm(l.iter) == "nodes"]
     nd = local_defs(f, "nodes")
@@ -611,6 +699,13 @@ def _oneagent(ctx, repo):
 
 _D = "pydcop/distribution/"
 VARIANTS = [
+    ("heur_backtrack_reads_before_stepping_back", _D + "heur_comhost.py", "            i -= 1\n            logger.info(", "            previous = computations[i][1]\n            i -= 1\n            current_mapping.get(previous.name)\n            logger.info(", "neutral"),
+    ("heur_backtrack_unplaces_failed_computation", _D + "heur_comhost.py", ["            i -= 1\n            logger.info(", "            current_mapping.pop(computations[i][1].name)\n"], ["            previous = computations[i][1]\n            i -= 1\n            logger.info(", "            current_mapping.pop(previous.name)\n"], "break", "R-CAPACITY"),
+    ("adhoc_hostwith_var_hosted_twice", _D + "adhoc.py", "            if hostwith[0] in var_hosted:\n                # The variable is already hosted (e.g. by a must_host hint):\n                # the factor joins it, the variable must not be hosted twice.\n                selected = var_hosted[hostwith[0]]\n            elif candidates:",
+     "            if candidates:", "break", "R-ONCE"),
+    ("adhoc_hints_used_as_agents", _D + "adhoc.py", "        candidates = [(agents_capa[a], a) for a in hinted\n", "        candidates = [(agents_capa[a], a) for a in hints.host_with(n.name)\n", "break", "R-KINDS"),
+    ("adhoc_hostwith_store_before_test", _D + "adhoc.py", "            var_hosted[n.name] = selected\n            if hostwith[0] not in var_hosted:\n                agents_capa[selected] -= computation_memory(\n                    computation_graph.computation(hostwith[0]))\n            var_hosted[hostwith[0]] = selected\n",
+     "            var_hosted[n.name] = selected\n            var_hosted[hostwith[0]] = selected\n            if hostwith[0] not in var_hosted:\n                agents_capa[selected] -= computation_memory(\n                    computation_graph.computation(hostwith[0]))\n", "break", "R-DEADTEST"),
     ("gh_fixed_load_overwrites", _D + "gh_cgdp.py", "        capa = agt.capacity\n        for c, a in mapping.items():\n            if a == agt.name:\n                c_footprint = next(f for f, comp, _ in computations if comp.name == c)\n                capa -= c_footprint\n        for c, (a, f) in fixed_mapping.items():\n            if a == agt.name:\n                capa -= f\n",
      "        capa = agt.capacity - {a: f for a, f in fixed_mapping.values()}.get(agt.name, 0)\n        for c, a in mapping.items():\n            if a == agt.name:\n                c_footprint = next(f for f, comp, _ in computations if comp.name == c)\n                capa -= c_footprint\n", "break", "R-CAPACITY"),
     ("gh_pinned_not_deducted", _D + "gh_cgdp.py", "        for c, (a, f) in fixed_mapping.items():\n            if a == agt.name:\n                capa -= f\n", "", "break", "R-CAPACITY"),
